@@ -1128,7 +1128,7 @@ def run_xml_text_stream(ctx: Ctx) -> None:
 
 class Budget:
     def __init__(self, ctx: Ctx) -> None:
-        self.models = ctx.n(26, 400)
+        self.models = ctx.n(26, 300)
         self.size = 4
         self.instances = ctx.n(25, 40)
         self.json_mutants = ctx.n(85, 140)
